@@ -65,6 +65,10 @@ def replay_order(p):
         fsn = strict.attr_of(org.objects[0][1], 'FILE-SET-NUMBER')
         if not bad and (fid is None or fid.value != ['LF0'] or fsn is None or not fsn.has_value):
             bad = f'FILE-ID {fid.value if fid else None} / FILE-SET-NUMBER missing'
+        types = [e.set_type for _r, e in lfv.eflrs]
+        n_org = types.count('ORIGIN')
+        if not bad and types[1:1 + n_org] != ['ORIGIN'] * n_org:
+            bad = f'order of the sets is {types}: an ORIGIN set comes after another set instead of right after the header'
         nf = [(obn[2], rec.body[pos:]) for (rec, obn, pos) in lfv.iflrs if rec.type == 1]
         if not bad and nf != made['nf']:
             bad = f'no-format records {nf} != call order {made["nf"]}'
